@@ -3,6 +3,7 @@
 package vaa
 
 import (
+	"math/big"
 	"crypto/ecdsa"
 	"encoding/hex"
 	"fmt"
@@ -214,6 +215,25 @@ func TestVerifC06(t *testing.T) {
 			copy(c.Signature[:], sg)
 			w.Signatures[d] = &c
 			emit("member-wrong-index", w, addrs, 0)
+		}
+		// the mirrored form (r, N-s, v^1) of a guardian's signature: it recovers, over the same digest, to the same address (the
+		// contracts' ecrecover accepts it too), so the iff says the list must still verify
+		if k > 0 {
+			w = mk()
+			d = r.below(k)
+			c = *w.Signatures[d]
+			order, _ := new(big.Int).SetString("fffffffffffffffffffffffffffffffebaaedce6af48a03bbfd25e8cd0364141", 16)
+			sv := new(big.Int).Sub(order, new(big.Int).SetBytes(c.Signature[32:64]))
+			sb := sv.Bytes()
+			for i := 32; i < 64; i++ {
+				c.Signature[i] = 0
+			}
+			copy(c.Signature[64-len(sb):64], sb)
+			c.Signature[64] ^= 1
+			w.Signatures[d] = &c
+			if a := verifRecover(w.SigningMsg().Bytes(), c.Signature[:]); a != nil && common.BytesToAddress(a) == addrs[c.Index] {
+				emit("mirrored-high-s", w, addrs, 1)
+			}
 		}
 		// malformed signature bytes
 		for _, kind := range []string{"recid>=4", "zero-sig", "r=0", "s>=order", "sig-bitflip"} {
